@@ -815,12 +815,17 @@ impl TypeEntry {
                         (variant_name, &variant.raw_name)
                     })
                     .unzip();
+                // The value is used as a format string: braces are literal.
+                let display_strs = match_strs
+                    .iter()
+                    .map(|value| value.replace('{', "{{").replace('}', "}}"))
+                    .collect::<Vec<_>>();
 
                 quote! {
                     impl ::std::fmt::Display for #type_name {
                         fn fmt(&self, f: &mut ::std::fmt::Formatter<'_>) -> ::std::fmt::Result {
                             match *self {
-                                #(Self::#match_variants => write!(f, #match_strs),)*
+                                #(Self::#match_variants => write!(f, #display_strs),)*
                             }
                         }
                     }
